@@ -47,14 +47,14 @@ pub enum Op {
     RawMagic { kind: String, #[serde(with = "hexser")] bytes: Vec<u8> },
 }
 
-fn gen_cfg(_prop: &str, _tier: Tier, run_seed: u64) -> Value {
+fn gen_cfg(_prop: &str, tier: Tier, run_seed: u64) -> Value {
     let mut r = Rng::sub(run_seed, "cfg");
-    json!({ "kind": *r.pick(&["ctpk", "bch", "cgfx", "tpl"]), "disk": r.chance(1, 3) })
+    json!({ "kind": *r.pick(&["ctpk", "bch", "cgfx", "tpl"]), "disk": r.chance(1, 3), "max_side": if tier == Tier::Thorough && r.chance(1, 8) { 128 } else { 64 } })
 }
 
 const NAMES: &[&str] = &["tex", "a", "名前", "face_01", "ｱｲ", "", "x y.png", "テクスチャ"];
 
-fn gen_textures(r: &mut Rng, kind: &str) -> Vec<Tex> {
+fn gen_textures(r: &mut Rng, kind: &str, max_side: usize) -> Vec<Tex> {
     let n = match r.weighted(&[8, 30, 25, 15, 10, 7, 5]) {
         k => k,
     };
@@ -71,7 +71,7 @@ fn gen_textures(r: &mut Rng, kind: &str) -> Vec<Tex> {
             let size = texpack::ci8_size(w, h);
             v.push(Tex { name: String::new(), width: w, height: h, format: 9, payload: r.bytes(size), palette: r.bytes(512) });
         } else {
-            let sides = [8usize, 8, 16, 16, 32, 64];
+            let sides = [8usize, 8, 16, 16, 32, max_side];
             let w = *r.pick(&sides);
             let h = *r.pick(&sides);
             let format = *r.pick(&texpack::FORMATS_3DS);
@@ -385,7 +385,7 @@ fn run(cfg: &Value, ctx: &mut RunCtx) -> Step<()> {
     let mut planned: Vec<Op> = Vec::new();
     if !ctx.is_replay() {
         let mut r = Rng::sub(ctx.run_seed, "ops");
-        let texs = gen_textures(&mut r, &kind);
+        let texs = gen_textures(&mut r, &kind, cfg["max_side"].as_u64().unwrap_or(64) as usize);
         let packed = match kind.as_str() {
             "ctpk" => texpack::pack_ctpk(&mut r, &texs, false),
             "bch" => texpack::pack_bch(&mut r, &texs),
